@@ -99,11 +99,13 @@ func writeSVG(wg *sync.WaitGroup, path, lineStyle string) (chan<- []*sdf.Line2, 
 	go func() {
 		defer wg.Done()
 		for ls := range c {
+			simYield("render.writeSVG", uint64(len(ls)))
 			for _, l := range ls {
 				s.Line(l[0], l[1])
 			}
 		}
 
+		simYield("render.writeSVG.save", 0)
 		if err := s.Save(); err != nil {
 			fmt.Printf("%s\n", err)
 			return
